@@ -73,6 +73,8 @@ def get_facts(ctx):
 
 def plan(ctx, per_disease_quick, per_disease_thorough, small=True):
     cfgs = P.scenario_cfgs(ctx.rng)      # families every run exercises: treatment products, two instances, long histories, boundaries
+    # every disease on its OWN timestep, finer and coarser than the simulation's (module clock != sim clock), and mixed clocks in one sim
+    cfgs += P.own_timestep_cfgs(ctx.rng, reps=ctx.budget(1, 2))
     k = ctx.budget(per_disease_quick, per_disease_thorough)
     for d in P.DISEASES:
         for i in range(k):
@@ -429,10 +431,43 @@ def oracle_run(cfg, max_fail=40):
         if arg is None: return None
         return np.asarray(arg.uids if isinstance(arg, (ss.BoolArr, ss.IndexArr)) else arg)
 
+    def check_partition(dn, fl, alive, auids, ti, when=''):
+        """ the living hold exactly one compartment; sub-states imply their compartment; syphilis infected <=> in a stage """
+        spec = SPEC[dn]; comps = spec['comps']
+        cnt = np.stack([fl[c] for c in comps], axis=1).sum(axis=1)
+        bad = alive & (cnt != 1)
+        for j in np.flatnonzero(bad)[:50]:
+            held = '+'.join(sorted(c for c in comps if fl[c][j])) or 'none'
+            fail(dict(oracle='partition', disease=dn, flags=held),
+                 f'{dn}: living agent {int(auids[j])} at ti={ti}{when} holds compartments {{{held}}} instead of exactly one of {comps}',
+                 ti=ti, uid=int(auids[j]))
+        for sub, sup in spec['sub'].items():
+            b2 = alive & fl[sub] & ~fl[sup]
+            if b2.any():
+                j = int(np.flatnonzero(b2)[0])
+                fail(dict(oracle='partition', disease=dn, flags=f'{sub}-without-{sup}'),
+                     f'{dn}: living agent {int(auids[j])} at ti={ti}{when} is {sub} but not {sup}', ti=ti, uid=int(auids[j]))
+        if dn == 'syphilis':
+            stage = np.stack([fl[c] for c in SYPH_STAGES], axis=1).any(axis=1)
+            b3 = alive & (fl[I] != stage)
+            if b3.any():
+                j = int(np.flatnonzero(b3)[0])
+                fail(dict(oracle='partition', disease=dn, flags='infected-vs-stage'),
+                     f'syphilis: living agent {int(auids[j])} at ti={ti}{when}: infected={bool(fl[I][j])} but in a stage={bool(stage[j])}',
+                     ti=ti, uid=int(auids[j]))
+
+    module_steps = {}    # disease instance name -> step_state calls (= module steps) since the last per-sim-step snapshot
+
     def on_entry(call):
         dis = call.disease
         if call.method == 'step_state':
             au = call.auids
+            module_steps[dis.name] = module_steps.get(dis.name, 0) + 1
+            # "at every step": a module on a finer timestep than the sim steps several times between two analyzer snapshots;
+            # the state it starts each of ITS steps from must be partitioned too
+            fl = {f: call.before[:, i] for i, f in enumerate(facts[call.name]['flags'])}
+            check_partition(call.name, fl, np.asarray(dis.sim.people.alive.raw[au], dtype=bool), au, call.ti,
+                            when=f' (start of module step; sim.ti={call.sim_ti})' if call.ti != call.sim_ti else '')
             if call.name == 'measles':
                 # recovery falls due while the agent has not even become infectious yet (scheduled recovery precedes onset)
                 ei = np.asarray(dis.exposed.raw[au], dtype=bool) | np.asarray(dis.infected.raw[au], dtype=bool)
@@ -510,11 +545,13 @@ def oracle_run(cfg, max_fail=40):
         def step(self):
             sim = self.sim
             au = np.asarray(sim.people.auids).copy()
-            rec = dict(ti=int(sim.ti), auids=au, alive=np.asarray(sim.people.alive.raw[au], dtype=bool), d={})
+            rec = dict(ti=int(sim.ti), auids=au, alive=np.asarray(sim.people.alive.raw[au], dtype=bool), d={}, hops={})
             for nm, dis in sim.diseases.items():
                 dn = P.name_of(dis)
                 if dn is None: continue
                 rec['d'][nm] = (dn, {f: np.asarray(getattr(dis, f).raw[au], dtype=bool) for f in facts[dn]['flags']})
+                rec['hops'][nm] = module_steps.get(dis.name, 0)
+            module_steps.clear()
             snaps.append(rec)
 
     with P.Recorder(facts, on_call, eval_atoms=False, on_entry=on_entry) as rec:
@@ -530,26 +567,7 @@ def oracle_run(cfg, max_fail=40):
             cnt = M.sum(axis=1)
             alive = sn['alive']
             # partition of the living
-            bad = alive & (cnt != 1)
-            for j in np.flatnonzero(bad)[:50]:
-                held = '+'.join(sorted(c for c in comps if fl[c][j])) or 'none'
-                fail(dict(oracle='partition', disease=dn, flags=held),
-                     f'{dn}: living agent {int(sn["auids"][j])} at ti={sn["ti"]} holds compartments {{{held}}} instead of exactly one of {comps}',
-                     ti=sn['ti'], uid=int(sn['auids'][j]))
-            for sub, sup in spec['sub'].items():
-                b2 = alive & fl[sub] & ~fl[sup]
-                if b2.any():
-                    j = int(np.flatnonzero(b2)[0])
-                    fail(dict(oracle='partition', disease=dn, flags=f'{sub}-without-{sup}'),
-                         f'{dn}: living agent {int(sn["auids"][j])} at ti={sn["ti"]} is {sub} but not {sup}', ti=sn['ti'], uid=int(sn['auids'][j]))
-            if dn == 'syphilis':
-                stage = np.stack([fl[c] for c in SYPH_STAGES], axis=1).any(axis=1)
-                b3 = alive & (fl[I] != stage)
-                if b3.any():
-                    j = int(np.flatnonzero(b3)[0])
-                    fail(dict(oracle='partition', disease=dn, flags='infected-vs-stage'),
-                         f'syphilis: living agent {int(sn["auids"][j])} at ti={sn["ti"]}: infected={bool(fl[I][j])} but in a stage={bool(stage[j])}',
-                         ti=sn['ti'], uid=int(sn['auids'][j]))
+            check_partition(dn, fl, alive, sn['auids'], sn['ti'])
             # the dead hold none (models that resolve disease deaths)
             if spec['deaths']:
                 clear = spec.get('clear', comps)
@@ -575,6 +593,13 @@ def oracle_run(cfg, max_fail=40):
                             # with a treatment product a step is: progression, then treatment, then (re)infection — up to three hops
                             one = lambda x, y: base_ok(x, y) or (x, y) in extra_arrows[nm]
                             allowed = any(one(a_c, m1) and any(one(m1, m2) and one(m2, b_c) for m2 in comps) for m1 in comps)
+                        hops = sn['hops'].get(nm, 1)
+                        if not allowed and hops > 1 and not extra_arrows.get(nm):
+                            # a module on a finer timestep made `hops` steps of its own since the last snapshot: a path of that many arrows
+                            reach = {a_c}
+                            for _ in range(hops):
+                                reach = {y for x in reach for y in comps if base_ok(x, y)}
+                            allowed = b_c in reach
                         if allowed: continue
                         hit = ok & (pa == a_i) & (ca == b_i)
                         if hit.any():
